@@ -312,10 +312,6 @@ class QuiltWorld(WorldBase):
         elif what in ('q_iloc', 'q_loc'):
             op['r'] = self._key(ch, nr, hier=self.retain and self.axis == 0)
             op['c'] = self._key(ch, nc, hier=self.retain and self.axis == 1)
-            opp = 'c' if self.axis == 0 else 'r'
-            k = op.get(opp)
-            if k and 's' in k and k['s'][0] == k['s'][1]:
-                op[opp] = {'all': 1}  # zero-width selections on the other axis are plain Frame selection (C04), not the Quilt's business
             if what == 'q_iloc' and ch.chance(0.2):
                 op['c'] = None  # single-axis key
         elif what == 'q_getitem':
